@@ -1,6 +1,8 @@
 ----------------------------- MODULE ArenaTrace -----------------------------
 (* Trace validation for C12: one record per output model.
-   {"t", "align", "plan":[{off,size,first,last,cpu,cin,cout,name}..], "scratch":[{off,size}..] (custom-op scratch
+   {"t", "align", "nops": number of operators of the output graph, "cpuops": the operators that are not ethos-u operators,
+    "plan":[{off,size,first,last,var,cpu,cin,cout,name}..], "acts":[{name,off,size,first,last,var,scratch}..] (every
+    activation of the output graph, placed or not), "scratch":[{off,size}..] (custom-op scratch
     tensors), "touched": highest region-1 end address any command stream touches, "io_end": highest end of a custom
     operator input/output, "reported": arena bytes reported in the summary CSV (-1 = not available),
     "console": bytes reported on the console for that memory (-1 = n/a; rounded to 0.01 KiB),
@@ -13,15 +15,20 @@ Ev == Trace[l]
 Max(a, b) == IF a > b THEN a ELSE b
 Check(e) ==
   LET P == e.plan
-      need == Max(Required(P), Max(e.touched, e.io_end))
-      overl == {<<i, j>> \in (1..Len(P)) \X (1..Len(P)) : i < j /\ Conflict(P[i], P[j])}
+      A == e.acts
+      peak == PeakLive(A, e.nops, S(e.cpuops))
+      need == Max(Max(Required(P), peak), Max(e.touched, e.io_end))
+      overl == {<<i, j>> \in (1..Len(P)) \X (1..Len(P)) : i < j /\ Conflict(P[i], P[j], e.nops)}
   IN { <<e.t, "NoOverlapLive", P[p[1]].name, P[p[2]].name>> : p \in overl }
      \cup { <<e.t, "Aligned", P[i].name, P[i].off>> : i \in {i \in 1..Len(P) : P[i].cpu /\ P[i].off % e.align # 0} }
+     \cup { <<e.t, "PlanComplete", A[i].name, A[i].size>> : i \in Unplaced(A) }
      \cup { <<e.t, "ScratchAtZero", "scratch", e.scratch[i].off>> : i \in {i \in 1..Len(e.scratch) : e.scratch[i].off # 0} }
      \cup { <<e.t, "ScratchSpans", "scratch", e.scratch[i].size>> :
                i \in {i \in 1..Len(e.scratch) : e.scratch[i].size < Max(e.touched, e.io_end)} }
-     \cup (IF e.reported >= 0 /\ e.reported < need THEN {<<e.t, "ReportedSufficient", "csv", e.reported>>} ELSE {})
-     \cup (IF e.console >= 0 /\ e.console + 6 < need THEN {<<e.t, "ReportedSufficient", "console", e.console>>} ELSE {})
+     \cup (IF e.reported >= 0 /\ e.reported < need
+           THEN {<<e.t, "ReportedSufficient", IF e.reported < peak THEN "csv-peak" ELSE "csv", e.reported>>} ELSE {})
+     \cup (IF e.console >= 0 /\ e.console + 6 < need
+           THEN {<<e.t, "ReportedSufficient", IF e.console + 6 < peak THEN "console-peak" ELSE "console", e.console>>} ELSE {})
      \* the arena is not in SRAM (spilling): the fast-scratch tensor is the SRAM buffer the model requires
      \cup (IF e.spilling /\ e.reported_fast >= 0 /\ e.reported_fast < Max(e.fast_size, e.touched_fast)
            THEN {<<e.t, "ReportedSufficient", "csv-sram", e.reported_fast>>} ELSE {})
